@@ -57,6 +57,16 @@ class HState:
         self.paths = set()          # access paths used in this epoch
         self.epochs = 1
         self.inserted = False
+        self.wrap = False           # its class overrides __call__
+        self.wrapper = None
+
+
+class Wrapped:
+    """What a handle whose class overrides __call__ hands out: the cached
+    resource inside a (per value unique) envelope."""
+
+    def __init__(self, inner):
+        self.inner = inner
 
 
 class Falsy:
@@ -120,6 +130,18 @@ class Interp:
         elif heq == 'unhashable':   # __eq__ without __hash__
             CountingHandle.__eq__ = lambda a, b: a is b
             CountingHandle.__hash__ = None
+
+        class WrappingHandle(CountingHandle):
+            """Post-processes what the base class caches (a legal override of
+            the public __call__): every access path must go through it."""
+            def __call__(self):
+                v = super().__call__()
+                st = it.h[self.hid]
+                if st.wrapper is None or st.wrapper.inner is not v:
+                    st.wrapper = Wrapped(v)
+                return st.wrapper
+
+        self.WrappingHandle = WrappingHandle
 
         class InnerHandle(d.Handle):
             """A resource that is itself a handle: accesses must hand it
@@ -229,6 +251,13 @@ class Interp:
         except Exception as e:
             self.fail(('C12', 'C11', 'C17'), 'access_raised', f'access to '
                       f'h{hid} via {how} raised {type(e).__name__}: {e}')
+        if st.wrap:
+            if not isinstance(v, Wrapped):
+                self.fail(('C12', 'C11', 'C17'), 'identity', f'access to '
+                          f'h{hid} via {how} bypassed the handle\'s own '
+                          f'__call__ (got the raw cached value)')
+            v = v.inner
+            self.probes['handle_overriding_call'] += 1
         n = st.completed - c0
         if st.loaded:
             if n:
@@ -297,7 +326,9 @@ class Interp:
             st = HState(hid, spec.get('val', 'obj'), spec.get('fails', []))
             st.via = spec.get('via')
             st.target = spec.get('target')
-            st.obj = self.CountingHandle(hid)
+            st.wrap = bool(spec.get('wrap'))
+            st.obj = (self.WrappingHandle if st.wrap
+                      else self.CountingHandle)(hid)
             self.h[hid] = st
             return ('handle', st)
         mid = spec['id']
@@ -914,6 +945,9 @@ class GenState:
         self.hids.append(hid)
         if val == 'world':
             self.worlds.append(hid)
+        elif val not in ('via', 'clearer', 'inner', 'selfh') \
+                and rng.random() < .1:
+            spec['wrap'] = True
         return spec
 
     def map_spec(self, depth, prefix):
@@ -1001,7 +1035,7 @@ def generate(prop, run_seed, tier='quick', tolerate=frozenset()):
             ops.append(['snap_check', rng.randint(1, gs.snaps),
                         rng.random() < .5])
     heq = crng.choice([None, None, None, None, 'equal', 'unhashable']) \
-        if prop == 'C11' else None
+        if prop == 'C11' else crng.choice([None] * 6 + ['equal'])
     return {'format': 1, 'engine': 'restree',
             'config': {'alphabet': alpha, 'heq': heq},
             'ops': ops, 'scripts': {}}
@@ -1079,8 +1113,9 @@ PROBES = {
             'path.loop_switch', 'path.nested_load', 'nested_load',
             'clear_from_inside_a_load', 'handle_valued_resource',
             'eq_raises_value', 'load_failed',
-            'load_failed_then_retry', 'clear_between_accesses'],
+            'load_failed_then_retry', 'clear_between_accesses',
+            'handle_overriding_call'],
     'C17': ['non_identifier_name', 'layered_snapshot',
             'nested_setattr_rejected', 'setattr_rejected',
-            'snapshot_then_mutate_map'],
+            'snapshot_then_mutate_map', 'handle_overriding_call'],
 }
